@@ -69,7 +69,7 @@ def g_case(hist, out):
             ops.append("ORollback %d" % o["t"])
         else:
             ops.append("OReopen")
-    tr = glist(out["steps"], lambda s: "(%d, %s)" % (s["code"], g_obs(s["obs"])))
+    tr = glist(out.get("steps") or [], lambda s: "(%d, %s)" % (s["code"], g_obs(s["obs"])))
     return "(mkCase %s (mkU %d%%nat %s %s) %s %s %s %s)" % (
         "true" if hist["full"] else "false", hist["kh"], g_nl(out["uh"]), g_nl(out["ut"]),
         glist(ops), tr,
@@ -207,7 +207,7 @@ def dup_trigger(hist, out):
     """the known finding's narrow trigger: an accepted rollback removes a block containing a
     transaction hash that also occurs in a surviving block (so its tx-meta key is deleted)"""
     live = []
-    for o, s in zip(hist["ops"], out["steps"]):
+    for o, s in zip(hist["ops"], out.get("steps") or []):
         if o["op"] == "p" and s["code"] == 0:
             live.append(list(o["txs"]))
         elif o["op"] == "r" and s["code"] == 0:
@@ -246,6 +246,9 @@ def shrink(ctx, exe, hist, bad):
         i = 0
         while i < len(cur["ops"]):
             cand = dict(cur, ops=cur["ops"][:i] + cur["ops"][i + 1:])
+            if not cand["ops"]:
+                i += 1
+                continue
             # par references by op index shift: drop them when ops are removed
             cand["ops"] = [dict((k, v) for k, v in o.items() if k != "par" or v < 0) for o in cand["ops"]]
             cand["kh"] = kh_of(cand["ops"])
@@ -268,6 +271,9 @@ def decide(ctx, exe, known, hist, out, v, do_shrink=True):
     if vp[0] == 3 or (vp[0] == 0 and vm[0] == 3):
         ctx.broken("domain:judge_chain", "case outside the model's domain: " + json.dumps(hist)[:600])
         return "domain"
+    if vp[0] == 2 and len(ctx.violations) >= 5 and not (dup_trigger(hist, out) and vm[0] == 0):
+        ctx.extra["further_failing_cases_not_written"] = ctx.extra.get("further_failing_cases_not_written", 0) + 1
+        return "violation"
     if vp[0] == 2:
         if "C09-dup-txhash-meta" in known and dup_trigger(hist, out) and vm[0] == 0:
             ctx.known("C09-dup-txhash-meta", known["C09-dup-txhash-meta"]["what"])
@@ -297,6 +303,15 @@ def load_corpus():
 
 
 def run(ctx):
+    try:
+        return run_inner(ctx)
+    except Exception as ex:  # never die without a verdict
+        import traceback
+        ctx.broken("check-internal-error", traceback.format_exc()[-1500:])
+        return ctx.finish(rule="-")
+
+
+def run_inner(ctx):
     ctx.proofs(["Proofs/ChainLedgerProofs"], model_targets=["ChainLedger"])
     exe, err = vlib.build_harness("chain")
     if exe is None:
